@@ -246,8 +246,8 @@ def _svc2(b: LayerBuilder, k: int, name: str, rq_params: List[Any], rs_params: L
     b.service(name, rq, [rs], [])
 
 
-def build_matrix_builder(kind: str) -> LayerBuilder:
-    b = LayerBuilder(f"matrix_{kind}", "ecu")
+def build_matrix_builder(kind: str, container: Optional[str] = None) -> LayerBuilder:
+    b = LayerBuilder(f"matrix_{kind}", "ecu", container=container)
     u8 = b.dop("m_u8", b.slt(bits=8))
     k = 0
     if kind == "minmax":
@@ -312,6 +312,42 @@ def build_matrix_builder(kind: str) -> LayerBuilder:
                 else:
                     f = b.dynend_field(f"f{k}", pair, u8, "255")
                 _svc2(b, k, f"sf{k}", [b.value("pre", u8), b.value("list", f)], [b.value("list", f)])
+                k += 1
+    elif kind == "compu":
+        # every computation-method category x {int, float} internal x {int, float} physical: the coded types
+        # cover the whole 8 / 16 / 32 / 64 bit pattern space (also NaN, infinities, values outside the limits)
+        combos = [("A_UINT32", 8, "A_UINT32"), ("A_INT32", 16, "A_FLOAT64"), ("A_FLOAT32", 32, "A_INT32"),
+                  ("A_FLOAT64", 64, "A_UINT32"), ("A_FLOAT32", 32, "A_FLOAT64"), ("A_UINT32", 8, "A_FLOAT32")]
+        for it, bits, pt in combos:
+            isf = it.startswith("A_FLOAT")
+            cms = [
+                ("lin", b.linear(it, pt, 1, 2)),
+                # (coefficients are written with the physical type: fractions only for float physical types)
+                ("linlim", b.linear(it, pt, 0, 0.5 if pt.startswith("A_FLOAT") else 3, 1, lower="0", upper="100")),
+                ("linden", b.linear(it, pt, -3, 1, 4)),
+                ("sl", b.scale_linear(it, pt, [(0, 10, 0, 1), (11, 100, 5, 2)])),
+                ("rf", b.rat_func(it, pt, [1, 2, 1], [1])),
+                ("rfq", b.rat_func(it, pt, [4, 1], [-3, 1], lower=0, upper=200)),
+                ("srf", b.scale_rat_func(it, pt, [(0, 9, [0, 1], [1]), (10, 50, [1, 0, 1], [2, 1])])),
+                ("ti", b.tab_intp(it, pt, [(0, 0), (10, 100), (20, 150), (100, 160)])),
+            ]
+            for tag, cm in cms:
+                d = b.dop(f"cm{k}_{tag}", b.slt(it, bits), compu=cm)
+                _svc2(b, k, f"cm{k}", [b.value("v", d)], [b.value("pre", u8), b.value("v", d), b.value("post", u8)])
+                import struct
+                def enc(x, it=it, bits=bits):
+                    if it == "A_FLOAT32":
+                        return struct.pack(">f", float(x))
+                    if it == "A_FLOAT64":
+                        return struct.pack(">d", float(x))
+                    return int(x).to_bytes(bits // 8, "big", signed=(it == "A_INT32"))
+                specials = []
+                if isf:
+                    specials = [struct.pack(">f", v) if bits == 32 else struct.pack(">d", v)
+                                for v in (float("nan"), float("inf"), float("-inf"), 1e30, -0.0, 3.0, 2.9999)]
+                vals = [enc(v) for v in (0, 3, 10, 20, 50, 100)] + specials
+                b.examples[f"rq_cm{k}"] = [(bytes([0x31, k]) + v).hex() for v in vals]
+                b.examples[f"rs_cm{k}"] = [(bytes([0x71, k, 7]) + v + b"\x09").hex() for v in vals]
                 k += 1
     elif kind == "lengths":
         # PARAM-LENGTH-INFO-TYPE objects (length given by a LENGTH-KEY parameter, in bits) at bit positions 0 and 4,
@@ -393,7 +429,7 @@ def build_matrix_builder(kind: str) -> LayerBuilder:
     return b
 
 
-MATRIX_KINDS = ["minmax", "leading", "strings", "ints", "structs", "lengths", "ambig"]
+MATRIX_KINDS = ["minmax", "leading", "strings", "ints", "structs", "lengths", "ambig", "compu"]
 
 
 def build_matrix_layer(kind: str):
